@@ -1,3 +1,93 @@
-From ZV Require Import Lib.Base Model.Query Model.Parser Model.QueryDoc Model.QueryDocRun.
-Theorem C06_placeholder : True. Proof. exact I. Qed.
-Print Assumptions C06_placeholder.
+(** C06 - query strings mean what doc/query_syntax.md says.
+    Model/QueryDoc.v: the documented grammar [dexpr]/[dquery], the printer [render], the documented meaning
+    [den] (a query tree; Model/Query.v's [eval] is its reference semantics).  Model/Parser.v: the parser.
+    External engines are universally quantified ([rq] regexp classification, [rx_auto], [rcompile], [lang]). *)
+From ZV Require Import Lib.Base Model.Query Generated.ParserTables Model.Parser Model.QueryDoc Model.QueryDocRun.
+From ZV Require Import Proofs.QueryDocTree.
+From Coq Require Import String.
+Open Scope N_scope.
+
+(** FULL STATEMENT (target):
+      forall q, wf_query q = true -> parse (render q) = Ok (Simplify (den q)).
+    PROVED below, for all well-formed abstract queries (unbounded nesting, any number of or-clauses,
+    negations, case:/type: directives at any position, every field and alias): the parser's expression
+    level - its atom table, the '-' check, parseExprList's case/type lifting with caseScopeQ protection,
+    parseOperators, stripCaseScopes, Simplify - run on the token structure of q ([iquery]) yields exactly
+    Simplify (den q).  NOT proved in Coq: the byte level, i.e. that nextToken/parseExpr on the printed
+    string [render q] reproduce that token structure (parse (render q) = iquery q); this part is checked by
+    the correspondence on every run (printer = harness printer, model parse = query.Parse, and
+    Simplify (den q) = query.Parse's tree, on >= 1400 random abstract queries). *)
+Theorem C06_parse_render_partial :
+  forall (rq : str -> rqres) (rx_auto rcompile : str -> bool) (lang : str -> option str) (q : dquery),
+    wf_query rq rcompile q = true ->
+    iquery rq rx_auto rcompile lang q = Ok (Simplify (den (rq_d rq) rx_auto lang q)).
+Proof. exact iquery_den. Qed.
+Print Assumptions C06_parse_render_partial.
+
+(** an enclosing group's case: reaches exactly the nested groups that have no case: of their own
+    (what parseExprList's repeated setCase passes and the caseScopeQ wrappers amount to) *)
+Theorem C06_case_scope_enclosing_group :
+  forall (rx_auto : str -> bool) (K k : cflavor) (has : bool) (ty : N) (members : list (list Q)),
+    qmap (setCase rx_auto (flavor_text K)) (build rx_auto (flavor_text k) has ty members) =
+    build rx_auto (flavor_text (if has then k else K)) has ty members.
+Proof. exact build_pass. Qed.
+Print Assumptions C06_case_scope_enclosing_group.
+
+(** case:auto is case-sensitive exactly when the (literal) pattern has an upper-case letter;
+    case:yes / case:no are sensitive / insensitive *)
+Theorem C06_case_auto_iff_upper :
+  forall (rx_auto : str -> bool) (k : cflavor) (p : str) (cs f c : bool),
+    setCase rx_auto (flavor_text k) (QSubstring p cs f c) =
+    QSubstring p (match k with CYes => true | CNo => false | CAuto => existsb is_upper p end) f c.
+Proof. intros. rewrite (setCase_lit rx_auto k). destruct k; reflexivity. Qed.
+Print Assumptions C06_case_auto_iff_upper.
+
+(** ---- where the implementation deviates from the document (known findings, not repaired) *)
+Definition lit_rq (t : str) : rqres := RQLit t.
+Definition ex_parse (s : str) : outcome Q := parse lit_rq (fun _ => false) (fun _ => true) (fun _ => None) s.
+Definition ex_den (q : dquery) : Q := den (rq_d lit_rq) (fun _ => false) (fun _ => None) q.
+Definition ex_wf (q : dquery) : bool := wf_query lit_rq (fun _ => true) q.
+
+(** grouping = "(" query ")" in the document, but "(f:x)" - a group without a blank inside - is one regexp
+    token for nextToken: the documented query "(f:x) y" does not restrict file names *)
+Theorem C06_compact_group_refuted :
+  exists q : dquery, ex_wf q = true /\
+    ex_parse (render q) = Ok (Simplify (ex_den q)) /\          (* printed "( f:x) y": as documented *)
+    ex_parse (render_compact q) <> Ok (Simplify (ex_den q)).   (* printed "(f:x) y": not *)
+Proof.
+  exists [[DGroup [[DField FFile true (WPlain (dbs "x"))]]; DText (WPlain (dbs "y"))]].
+  split; [vm_compute; reflexivity|]. split; [vm_compute; reflexivity|]. vm_compute. discriminate.
+Qed.
+Print Assumptions C06_compact_group_refuted.
+
+(** "regex: - Matches content using a regular expression", but regex:a is parsed exactly like the bare
+    pattern a (content OR file name) *)
+Theorem C06_regex_field_refuted :
+  exists q : dquery, ex_parse (render q) = ex_parse (dbs "a") /\ ex_parse (render q) <> Ok (Simplify (ex_den q)).
+Proof.
+  exists [[DField FRegex false (WPlain (dbs "a"))]]. split; [vm_compute; reflexivity | vm_compute; discriminate].
+Qed.
+Print Assumptions C06_regex_field_refuted.
+
+(** ---- non-vacuity: well-formed queries exist, and on them the full statement holds by computation *)
+Definition ex_q1 : dquery :=   (* a ( Foo or -f:"x y" case:yes) or type:repo r:z c:B *)
+  [[DText (WPlain (dbs "a"));
+    DGroup [[DText (WPlain (dbs "Foo"))]; [DNeg (DField FFile true (WQuoted (dbs "x y"))); DCase CYes]]];
+   [DType false TRepo; DField FRepo true (WPlain (dbs "z")); DField FContent true (WPlain (dbs "B"))]].
+Example ex_q1_wf : ex_wf ex_q1 = true. Proof. vm_compute. reflexivity. Qed.
+Example ex_q1_render : render ex_q1 = dbs "a ( Foo or -f:""x y"" case:yes) or type:repo r:z c:B". Proof. vm_compute. reflexivity. Qed.
+Example ex_q1_full : ex_parse (render ex_q1) = Ok (Simplify (ex_den ex_q1)). Proof. vm_compute. reflexivity. Qed.
+Example ex_q1_tree : iquery lit_rq (fun _ => false) (fun _ => true) (fun _ => None) ex_q1 = ex_parse (render ex_q1).
+Proof. vm_compute. reflexivity. Qed.
+Example ex_q1_meaning : ex_den ex_q1 =
+  QOr [QAnd [QType 2 (QOr [QAnd [QSubstring (dbs "a") false false false;
+                                 QOr [QAnd [QSubstring (dbs "Foo") true false false];
+                                      QAnd [QNot (QSubstring (dbs "x y") true true false)]]];
+                           QAnd [QRepo (dbs "z"); QSubstring (dbs "B") true false true]])]].
+Proof. vm_compute. reflexivity. Qed.
+(** inner case: protects, outer case: reaches unprotected groups *)
+Definition ex_q2 : dquery :=
+  [[DCase CNo; DGroup [[DText (WPlain (dbs "Ab")); DCase CYes]]; DGroup [[DText (WPlain (dbs "Cd"))]]]].
+Example ex_q2_full : ex_wf ex_q2 = true /\ ex_parse (render ex_q2) = Ok (Simplify (ex_den ex_q2)) /\
+  Simplify (ex_den ex_q2) = QAnd [QSubstring (dbs "Ab") true false false; QSubstring (dbs "Cd") false false false].
+Proof. repeat split; vm_compute; reflexivity. Qed.
